@@ -93,6 +93,22 @@ def check(case, ctx):
         bad = [(d, g, e) for d, g, e in zip(dicts, got, expected) if g != e][0]
         raise Violation("behaviour-changed-in-child", f"protocol {proto}: options={bad[0]}: child {bad[1]} but fresh build {bad[2]}")
     labels.add("child-process")
+    # a user-written subclass of a public class (Overloaded) that carries state of its own, wrapped around the root
+    from .. import pmod
+    from labrea import Option
+    U1 = pbuild(spec)
+    user = pmod.TaggedOverloaded(Option("K", 0), {1: U1.root, "a": Option("A", None)}, U1.root, ("tag", len(spec["defs"])), case.get("strict", True))
+    before_u = outcomes(user, dicts)
+    try:
+        user2 = pickle.loads(pickle.dumps(user, protocol=proto))
+    except Exception as e:
+        raise Violation("cannot-pickle", f"user subclass of Overloaded around the root, protocol {proto}: {type(e).__name__}: {e}")
+    after_u = outcomes(user2, dicts)
+    if after_u != before_u:
+        i = [k for k in range(len(dicts)) if before_u[k] != after_u[k]][0]
+        raise Violation("user-subclass-state-lost", f"a user subclass of Overloaded with instance state (tag, strict) around the root, protocol {proto}: on {dicts[i]} "
+                                                    f"the original answers {before_u[i]} but its round-tripped copy {after_u[i]}")
+    labels.add("user-subclass-round-trip")
     # a long-lived graph that has been used and reconfigured: after the round trip it must behave like the original
     # OBJECT (including what it has memoised), not like a fresh definition
     W = pbuild(spec)
